@@ -2,11 +2,11 @@ package srvworld
 
 import (
 	"bytes"
-	"strings"
 	"encoding/binary"
 	"errors"
 	"fmt"
 	"net"
+	"strings"
 	"time"
 
 	"github.com/pion/turn/v5/internal/zzverif/ref"
@@ -236,7 +236,6 @@ func grantedLifetime(cfg *Config, life int64) time.Duration {
 }
 
 var errSkip = errors.New("skip")
-
 
 // authExchange signs m (applying the step's credential defect), sends it, handles C03's oracle for
 // defective requests and the transparent retry after a legitimate 438 (nonce older than an hour).
